@@ -343,6 +343,26 @@ def try_(ids, pids):
 
 if __name__ == "__main__":
     cmd = sys.argv[1]
+    if cmd == "fromlog":
+        # rebuild results.json from the per-mutant lines of a run's log (the pool hands results back only when a worker's whole batch is done)
+        import re
+        rp = os.path.join(OUT, "results.json")
+        results = json.load(open(rp)) if os.path.exists(rp) else {}
+        for line in open(sys.argv[2]):
+            m = re.match(r"(S[\w.-]+) (\S+) (\d+) (\S+) (pass|killed|timeout|invalid\S*) ?(.*)$", line.rstrip("\n"))
+            if not m:
+                continue
+            checks = None
+            if m.group(5) == "pass":
+                import ast as _a
+                try:
+                    checks = _a.literal_eval(m.group(6)) if m.group(6) else []
+                except Exception:  # noqa: BLE001
+                    checks = [m.group(6)]
+            results[m.group(1)] = {"suite": m.group(5), "checks": checks}
+        json.dump(results, open(rp, "w"), indent=0, sort_keys=True)
+        print(len(results), "results")
+        sys.exit(0)
     if cmd == "try":
         ids = [a for a in sys.argv[2:] if a.startswith("S")]
         try_(ids, [a for a in sys.argv[2:] if a.startswith("C")])
